@@ -18,7 +18,8 @@
 #include "os_base.h"
 #include <qb/qbmap.h>
 #include "verif.h"
-#include "alloc.h"
+#include "alloc_script.h"
+#include "map_ghost.h"
 /* quick tier: the probed key hashes to bucket HT_BUCKET; the spliced ghost case split (contracts/hashtable.spec)
  * turns the bucket index the real code computes into that constant under the same assumption */
 #if !defined(HT_ANYBUCKET) && !defined(HT_BUCKET)
@@ -33,7 +34,6 @@ static uint32_t verif_bucket_split(uint32_t h)
 #define VERIF_BUCKET_SPLIT(h) verif_bucket_split(h)
 #endif
 #include "hashtable.c"
-#include "map_ghost.h"
 
 #ifndef HT_ORDER
 #define HT_ORDER 3
@@ -78,25 +78,29 @@ static uint32_t ht_probe_bucket(const char *k)
 #endif
 
 /* one ghost node + its concrete node, appended to bucket `bucket` */
-static void ht_add_node(struct hash_table *t, unsigned i, uint32_t bucket, unsigned with_notifier)
+/* fix_present / fix_iters: -1 = symbolic (any value the state variant allows), otherwise that concrete value */
+static void ht_add_node(struct hash_table *t, unsigned i, uint32_t bucket, unsigned with_notifier, int rank, int fix_present, int fix_iters)
 {
-	unsigned j;
 	VERIF_ND(uint8_t, nd_present);
 	VERIF_ND(uint8_t, nd_iters);
 	VERIF_ND(uint8_t, nd_nevents);
 	struct hash_node *n = malloc(sizeof(*n));
 	ASSUME(n != NULL);
+	if (fix_present >= 0) {
+		nd_present = (uint8_t)fix_present;
+	}
+	if (fix_iters >= 0) {
+		nd_iters = (uint8_t)fix_iters;
+	}
 	ASSUME(nd_present <= 1 && nd_iters <= 2 && nd_present + nd_iters >= 1);
-	ASSUME(VERIF_STATE_EXTRA(nd_present, nd_iters));
+	if (fix_present < 0) {
+		ASSUME(VERIF_STATE_EXTRA(nd_present, nd_iters));
+	}
 	HG[i].n = n;
 	HG[i].bucket = bucket;
 	HG[i].key = verif_key_new();
 	ASSUME(qb_hash_string(HG[i].key, HT_ORDER) == bucket);   /* WF: a node lives in the bucket of its key */
-	for (j = 0; j < HT_GMAX; j++) {
-		if (j < i) {
-			ASSUME(!spec_streq(HG[i].key, HG[j].key));       /* WF: keys are pairwise distinct */
-		}
-	}
+	verif_key_register(HG[i].key, rank);                          /* WF: keys are pairwise distinct (distinct ranks) */
 	HG[i].value = verif_value_new();
 	HG[i].present = nd_present;
 	HG[i].iters = nd_iters;
@@ -131,7 +135,10 @@ static void ht_add_global_notifiers(struct hash_table *t, unsigned gnot)
 }
 
 /* shape: nodes in 0..HT_MAXN, gnot in 0..2 global notifiers, nnot = every node has a per-key notifier */
-static struct hash_table *ht_build(uint32_t bucket, unsigned nodes, unsigned gnot, unsigned nnot)
+/* match: index of the node whose key equals the probe key (already registered with rank HT_PROBE_RANK), or -1;
+ * the matched node gets the concrete (m_present, m_iters) */
+#define HT_PROBE_RANK 100
+static struct hash_table *ht_build(uint32_t bucket, unsigned nodes, unsigned gnot, unsigned nnot, int match, int m_present, int m_iters)
 {
 	unsigned i;
 	size_t present = 0;
@@ -140,7 +147,7 @@ static struct hash_table *ht_build(uint32_t bucket, unsigned nodes, unsigned gno
 	/* the table and its HT_NB buckets as ONE typed heap object (cheaper for CBMC than a byte array) */
 	struct ht_storage { struct hash_table t; struct hash_bucket b[HT_NB]; } *st;
 
-	verif_alloc_never_fails = 1;
+	verif_alloc_fail = 0;
 	verif_not_reset();
 	st = malloc(sizeof(struct ht_storage));
 	ASSUME(st != NULL);
@@ -164,13 +171,16 @@ static struct hash_table *ht_build(uint32_t bucket, unsigned nodes, unsigned gno
 	ht_add_global_notifiers(t, gnot);
 	HG_n = nodes;
 	for (i = 0; i < nodes; i++) {
-		ht_add_node(t, i, bucket, nnot);
+		if ((int)i == match) {
+			ht_add_node(t, i, bucket, nnot, HT_PROBE_RANK, m_present, m_iters);
+		} else {
+			ht_add_node(t, i, bucket, nnot, (int)i + 1, -1, -1);
+		}
 		present += HG[i].present;
 	}
 	ASSUME(nd_other <= (1u << 30));
 	HG_other = nd_other;
 	t->count = HG_other + present;
-	verif_alloc_never_fails = 0;
 	verif_alloc_calls = 0;
 	return t;
 }
@@ -325,7 +335,7 @@ static struct hash_table *ht_build2(unsigned n1, unsigned n2, unsigned gnot, uns
 	struct hash_table *t;
 	struct ht_storage { struct hash_table t; struct hash_bucket b[HT_NB]; } *st;
 
-	verif_alloc_never_fails = 1;
+	verif_alloc_fail = 0;
 	verif_not_reset();
 	st = malloc(sizeof(struct ht_storage));
 	ASSUME(st != NULL);
@@ -350,23 +360,35 @@ static struct hash_table *ht_build2(unsigned n1, unsigned n2, unsigned gnot, uns
 	HG_n1 = n1;
 	HG_n = n1 + n2;
 	for (i = 0; i < n1 + n2; i++) {
-		ht_add_node(t, i, i < n1 ? HT_B1 : HT_B2, nnot);
+		ht_add_node(t, i, i < n1 ? HT_B1 : HT_B2, nnot, (int)i + 1, -1, -1);
 	}
 	HG_other = 0;
 	t->count = ht_ghost_present();
-	verif_alloc_never_fails = 0;
 	verif_alloc_calls = 0;
 	return t;
 }
 
-/* shape enumeration of the single-bucket states: node count 0..3 x notifiers {none, 2 global + 1 per key} */
-#define HT_SHAPES 8
-#define HT_SHAPE_NODES(s) ((s) / 2)
-#define HT_SHAPE_GNOT(s) (((s) % 2) * 2)
-#define HT_SHAPE_NNOT(s) ((s) % 2)
-#ifndef HT_SHAPE_FROM
-#define HT_SHAPE_FROM 0
+/* case enumeration of the single-bucket states: node count 0..3 x which node holds the probed key (none,
+ * 0..n-1) x iterators parked on that node (0 / 1) x notifiers {none, 2 global + 1 per key}: 32 cases, each
+ * run through VERIF_CASE(nodes, gnot, nnot, match, m_iters) when the nondet nd_case selects it */
+#define HT_ENUM_CASES(nd_case, CALL) do { \
+	unsigned c_ = 0, n_, t_, i_; int m_; \
+	for (n_ = 0; n_ <= HT_MAXN; n_++) { \
+		for (m_ = -1; m_ < (int)n_; m_++) { \
+			for (i_ = 0; i_ < (m_ < 0 ? 1u : 2u); i_++) { \
+				for (t_ = 0; t_ < 2; t_++) { \
+					if (c_ >= HT_CASE_FROM && c_ < HT_CASE_TO && (nd_case) == c_) { \
+						CALL(n_, t_ * 2, t_, m_, (int)i_); \
+					} \
+					c_++; \
+				} \
+			} \
+		} \
+	} \
+} while (0)
+#ifndef HT_CASE_FROM
+#define HT_CASE_FROM 0
 #endif
-#ifndef HT_SHAPE_TO
-#define HT_SHAPE_TO HT_SHAPES
+#ifndef HT_CASE_TO
+#define HT_CASE_TO 1000
 #endif
